@@ -50,10 +50,15 @@ fn main() {
             }
         }
         "C01" => props::c01::run(&mut ctx),
+        "C02" => props::c02::run(&mut ctx),
+        "C04" => props::c04::run(&mut ctx),
         "C05" => props::c05::run(&mut ctx),
         "C06" => props::c06::run(&mut ctx),
         "C07" => props::c07::run(&mut ctx),
+        "C09" => props::c09::run(&mut ctx),
         "C10" => props::c10::run(&mut ctx),
+        "C11" => props::c11::run(&mut ctx),
+        "C13" => props::c13::run(&mut ctx),
         "C12" => props::c12::run(&mut ctx),
         other => {
             eprintln!("unknown property {}", other);
